@@ -164,7 +164,11 @@ def gen_aircraft(rng, hist=None, max_wings=3, reid=None, sides=("both",), N=None
     wings = {}
     side = rng.choice(sides)
     _tally(hist, "main_side", side)
-    wings["main_wing"] = gen_wing(rng, hist, 1, afn, list(controls), side=side, is_main=True, N=N, reid=reid,
+    main_connect = None
+    if rng.random() < 0.25:
+        main_connect = {"ID": 0, "dx": r(rng, -0.5, 0.5, 2), "dz": r(rng, -0.3, 0.3, 2), "y_offset": rng.choice([0.0, r(rng, 0.1, 0.5, 2)])}
+        _tally(hist, "main_y_offset", main_connect["y_offset"] != 0.0)
+    wings["main_wing"] = gen_wing(rng, hist, 1, afn, list(controls), side=side, is_main=True, N=N, reid=reid, connect=main_connect,
                                   qc_points=(rng.random() < qc_points_p), planar=planar, allow_explicit=allow_explicit)
     nw = rng.randint(1, max_wings)
     _tally(hist, "n_wings", nw)
